@@ -247,7 +247,7 @@ package larking
 //@   applies IsIdentR
 //@ func isLiteral serves C01 C02 C16 C09 pure
 //@   applies IsLiteralR
-//@ func isPath serves C01 C02 C16 C09 pure
+//@ func isPath serves C01 C02 C16 C09 C03 pure
 //@   applies IsPathR
 
 // Lexer representation invariant.
@@ -509,7 +509,7 @@ package larking
 //@   loop 1 invariant forall k, j :: 0 <= k && k <= rangeindex && 0 <= j && j < len(toks[k].val) ==> sbstr(&b)[CatLen(toks, k) + j] == toks[k].val[j]
 //@   loop 1 unfold CatLen(toks, rangeindex + 2)
 
-//@ func (*path).search serves C01 C02 C09
+//@ func (*path).search serves C01 C02 C09 C16
 //@   returns (m, ps, err)
 //@   requires p != nil && TrieWf() && TrieOk()
 //@   requires len(toks) == 0 || (Shape(toks) && toks[0].typ != tokenPath)
@@ -643,7 +643,7 @@ package larking
 // last message; Buffered(s.rbuf, s.r, .) is the invariant between calls. b is
 // the pooled message buffer (assumed not to alias s.rbuf: pool exclusivity).
 //@ spec Window(m, r, g) = forall x :: off(m) <= x && x < off(m) + len(m) ==> raw(m)[x] == rdS(r)[x - off(m) + g]
-//@ func (*streamHTTP).readMsg serves C06 C08 C09
+//@ func (*streamHTTP).readMsg serves C06 C08 C09 C03
 //@   returns (count, msg, err)
 //@   ghost g = rdpos(s.r) - len(s.rbuf)
 //@   requires s != nil && s.method != nil && s.method.desc != nil && s.r != nil && c != nil
@@ -1116,7 +1116,10 @@ package larking
 //@   requires w != nil
 //@   modifies F$webWriter.wroteHeader, F$webWriter.seenHeaders, G$wr.
 //@   assert atcall `strings.TrimPrefix(` [prefix-stripped-only-after-the-sent-header-check C14] w.seenHeaders == nil || !(maphas(w.seenHeaders, key) && mapval(w.seenHeaders, key))
-//@ func (*webWriter).Flush trusted pure
+// Nothing is flushed before the reply has started: a call that fails before its first byte must
+// still be able to put its status where a gRPC-web client reads it (C10, C05).
+//@ func (*webWriter).Flush serves C10 C05 C06 trusted pure partial ghost
+//@   assert atcall `f.Flush(` [nothing-is-flushed-before-the-reply-started C10 C05 C06] w.wroteHeader || w.wroteResp
 // (newWebWriter wraps the response in a base64 encoder, an io.WriteCloser, exactly when typ is grpc-web-text.)
 //@ func (*webWriter).flushWithTrailer serves C06 partial count post nil pre
 //@   requires w != nil && (w.typ == "application/grpc-web-text" ==> impl(w.resp, "io.Closer"))
@@ -1421,8 +1424,10 @@ package larking
 // key into the response, and a '-bin' value is decoded whether or not it is padded.
 //@ spec ProtocolKey(k) = k == "content-type" || k == "grpc-status" || k == "grpc-message" || k == "grpc-encoding"
 //@      || k == "grpc-status-details-bin" || k == "grpc-timeout" || k == "te"
-//@ func isReservedHeader serves C14 pure
+//@ func isReservedHeader serves C14 C10 pure
 //@   ensures [protocol-keys-reserved C14] ProtocolKey(k) ==> result
+//@   ensures [application-keys-are-not-reserved C14 C10] result ==> hasprefix(k, "grpc-") || k == "content-type" || k == "user-agent" || k == "te"
+//@   ensures [the-tracing-metadata-grpc-go-hands-to-handlers-is-not-reserved C14 C10] k == "grpc-trace-bin" || k == "grpc-tags-bin" ==> !result
 //@   oracle !(k == "content-type" || k == "grpc-status" || k == "grpc-message" || k == "grpc-encoding" || k == "grpc-status-details-bin" || k == "grpc-timeout" || k == "te") || result
 //@ func isWhitelistedHeader serves C14 pure
 //@   ensures [only-harmless-keys-whitelisted C14] result ==> k == ":authority" || k == "user-agent"
@@ -1675,3 +1680,21 @@ package larking
 //@   count finishes `z.Writer.Close(`
 //@   ensures [a-closed-writer-is-finished-and-handed-back-once C13 C04] at every return dputs + puts == 1 && finishes == 1
 //@   assert atcall `z.Writer.Close(` [the-stream-is-finished-before-the-writer-can-be-reused C13] puts == 0
+
+// Compress / Decompress hand out a pooled (or new) gzip writer / reader set up for the
+// caller's stream: a reader that could not be reset goes back and is not handed out, a
+// reader that is handed out was not put back by this call, and it keeps the library's
+// default of reading every member of a multi-member body (C03, C13).
+//@ func (*CompressorGzip).Decompress serves C13 C03 partial ghost count post
+//@   returns (rd, err)
+//@   count puts `z.pool.Put(`
+//@   count singles `z.Multistream(`
+//@   ensures [a-reader-handed-to-a-request-was-not-put-back C13] at "return z, nil" puts == 0 && err == nil
+//@   ensures [a-reader-that-went-back-is-not-handed-out C13] at every return puts >= 1 ==> rd == nil
+//@   ensures [every-member-of-the-body-is-read C03] at every return singles == 0
+//@   assert atcall `z.Reset(` [a-pooled-reader-is-reset-onto-the-callers-stream C13 C03] arg1 == r
+//@   assert atcall `gzip.NewReader(` [a-new-reader-reads-the-callers-stream C13 C03] arg0 == r
+//@ func (*CompressorGzip).Compress serves C13 C04 partial ghost post
+//@   returns (wc, err)
+//@   assert atcall `z.Reset(` [a-pooled-writer-is-reset-onto-the-callers-stream C13 C04] arg1 == w
+//@   assert atcall `gzip.NewWriterLevel(` [a-new-writer-writes-to-the-callers-stream C13 C04] arg0 == w
